@@ -28,4 +28,6 @@ pub enum Error {
     NoWalletsFound,
     #[error("Invalid wallet selection input")]
     InvalidSelection,
+    #[error("Could not load EVM network from environment: {0}")]
+    FailedToLoadEvmNetwork(String),
 }
